@@ -55,10 +55,11 @@ TailWhere(d, P(_)) ==
   LET lo == SetMin(DOMAIN d)  hi == SetMax(DOMAIN d) IN SumRange(d, FirstFrom(P, lo, hi), hi)
 
 \* ---- saturating variant, for backgrounds whose denominators bd^M leave the 32-bit integers of TLC --------------------
-\* Numerators are capped at `cap` (cap * max bn and 4 * cap must fit in 32 bits): sums and tails are exact below the
+\* Numerators are capped at `cap` (4 * cap must fit in 32 bits; products are formed only when they stay below it): sums and tails are exact below the
 \* cap and equal to the cap otherwise, so every comparison "tail <= n" / "tail >= n" with n < cap is still decided
 \* exactly.  Used for the extreme upper tail (p of the order of 1e-17), where the numerators are small integers.
 CapAt(a, cap) == IF a > cap THEN cap ELSE a
+SatMul(a, b, cap) == IF a = 0 \/ b = 0 THEN 0 ELSE IF b > cap \div a THEN cap ELSE CapAt(a * b, cap)   \* never forms a product above cap
 RECURSIVE SatSumTo(_, _, _)
 SatSumTo(f, n, cap) == IF n = 0 THEN 0 ELSE CapAt(SatSumTo(f, n - 1, cap) + f[n], cap)
 RECURSIVE ConvToSat(_, _, _, _, _)
@@ -68,7 +69,7 @@ ConvToSat(m, bn, K, i, cap) ==
            lo == SetMin(DOMAIN prev) + RowLo(m[i], K)
            hi == SetMax(DOMAIN prev) + RowHi(m[i], K)
        IN [s \in lo..hi |->
-             SatSumTo([k \in 1..NS(K) |-> IF (s - m[i][k]) \in DOMAIN prev THEN CapAt(prev[s - m[i][k]] * bn[k], cap) ELSE 0], NS(K), cap)]
+             SatSumTo([k \in 1..NS(K) |-> IF (s - m[i][k]) \in DOMAIN prev THEN SatMul(prev[s - m[i][k]], bn[k], cap) ELSE 0], NS(K), cap)]
 ConvDistSat(m, bn, K, cap) == ConvToSat(m, bn, K, Len(m), cap)
 RECURSIVE SumRangeSat(_, _, _, _)
 SumRangeSat(d, a, b, cap) == IF a > b THEN 0 ELSE IF a = b THEN d[a]
